@@ -383,6 +383,13 @@ func (db *DB) AcquireRemoteHaltLock(ctx context.Context, lockID int64) (_ *HaltL
 		return nil, fmt.Errorf("wait: %w", err)
 	}
 
+	// From here on nobody but this node extends the database while the lock
+	// is good. The stream uses this to tell the files an acquisition is still
+	// waiting for from files that prove the lock is gone.
+	acquired := *haltLock
+	acquired.acquired = true
+	db.remoteHaltLock.CompareAndSwap(haltLock, &acquired)
+
 	other := *haltLock
 	return &other, nil
 }
@@ -3968,6 +3975,10 @@ type HaltLock struct {
 
 	// Time that the halt lock expires at.
 	Expires *time.Time `json:"expires"`
+
+	// Set on a replica's copy of the lock once the replica has caught up to
+	// Pos, i.e. once the acquisition is complete.
+	acquired bool
 }
 
 // haltLockAndGuard groups a halt lock and its associated guard set.
